@@ -143,6 +143,13 @@ def run(ctx):
             ctx.violations.append(dict(what="a user subclass that overrides the documented hook alpha_scaled does not get the scheme for its own diffusivity law: "
                                             "its stored field differs from the model's (which consults the law at every step)",
                                        key="user-law", input=rescorr.replay_payload(c_), observed=dict(max_abs_diff_field=r_[0], max_abs_diff_recovery=r_[1])))
+    # ---------------- the time grid in the containers a caller holds it in (a masked array with nothing masked, a pandas Series with default
+    # labels - a column of a production table divided by tau -, a plain list): the scheme is the scheme for those numbers
+    def rep_tf(c_, form_, obs_):
+        ctx.violations.append(dict(what="a time grid given in another container does not give the solution of the documented problem: it is not simulated like the same numbers in a plain array",
+                                   key="time-container", input=dict(**rescorr.replay_payload(c_), time_form=form_), observed=obs_))
+    ev += rescorr.time_container_forms([dict(kind="single", table=ship_u, table_kind="shipped", pi=8000.0, pf=1500.0, nx=20, times=np.linspace(0, np.sqrt(1.5), 25) ** 2, grid="quadratic"),
+                                        dict(kind="ideal", pi=8000.0, pf=1500.0, nx=20, times=np.linspace(0, np.sqrt(1.5), 25) ** 2, grid="quadratic")], rep_tf)
     # ---------------- pressure-dependent diffusivity: independent method-of-lines reference
     tables = [("shipped", rescorr.shipped_gas(stride=6))] + ([] if ctx.quick else [("ideal-gas", rescorr.synth_table("ideal", 80)), ("haynesville", rescorr.shipped_haynesville(stride=8))])
     # the same table with its rows listed by decreasing pressure must give the same answers (the library's lookups sort)
